@@ -257,3 +257,37 @@ func VerifGroupPeriodicOrTrigger(after int) {
 	vAssert(ok, "periodicortrigger/a-trigger-call-is-followed-at-once-by-a-run")
 	vCover("group-periodic-or-trigger")
 }
+
+// VerifGroupAfterStop: once StopAndWait has returned, nothing registered later ever starts -
+// whatever ended the group's context first (0 only the stop, 1 the parent was cancelled, 2 the
+// parent's deadline passed).
+//verif:case C17 quick VerifGroupAfterStop 0..2 @fires=2
+func VerifGroupAfterStop(how int) {
+	parent := context.Background()
+	cancel := func() {}
+	switch how {
+	case 1:
+		parent, cancel = context.WithCancel(parent)
+		cancel()
+	case 2:
+		d := time.Duration(vNondetInt("timeout"))
+		vAssume(vAnd(d > 0, d < 1<<40))
+		parent, cancel = context.WithTimeout(parent, d)
+		<-parent.Done() // the deadline has passed
+	}
+	g := NewGroup(parent)
+	g.StopAndWait()
+	started := 0
+	f := func(ctx context.Context) { vAtomic(func() { started++ }) }
+	g.Do(f)
+	g.Periodic(time.Duration(1), 0, f)
+	t := g.Trigger(f)
+	t()
+	pt := g.PeriodicOrTrigger(time.Duration(1), 0, f)
+	pt()
+	vQuiesce()
+	vAssert(started == 0, "stopandwait/nothing-starts-afterwards")
+	vAssert(vBlockedCount() == 0, "stopandwait/no-goroutine-left")
+	cancel()
+	vCover("group-after-stop")
+}
